@@ -135,3 +135,89 @@ Proof. apply (set_glyph_flags_mq _ gid m (gid_or_mask m)). Qed.
 Theorem set_glyph_flags_fbits b m s e interior from_out b' : N.ldiff m GLYPH_FLAGS_DEFINED = 0 ->
   set_glyph_flags b m s e interior from_out = Ok b' -> map fbits (pre b' ++ rest b') = map fbits (pre b ++ rest b).
 Proof. intro Hm. apply (set_glyph_flags_mq _ fbits m (fun x => fbits_or_mask m x Hm)). Qed.
+
+(* in output mode a flag call on the input side (not the from-out-buffer form) leaves the out-buffer alone *)
+Lemma out_mode_add_scratch b a : out_mode (add_scratch b a) = out_mode b.
+Proof. unfold add_scratch. destruct a; reflexivity. Qed.
+
+Lemma set_glyph_flags_outmode_pre b m s e interior b' : out_mode b = true ->
+  set_glyph_flags b m s e interior false = Ok b' -> pre b' = pre b /\ out_mode b' = true.
+Proof.
+  intros Hm. unfold set_glyph_flags.
+  set (s0 := match s with Some x => x | None => 0%nat end).
+  set (e0 := Nat.min (match e with Some x => x | None => blen b end) (blen b)).
+  rewrite Hm. cbn [negb andb].
+  destruct (e0 <? s0)%nat; cbn [andb].
+  - destruct interior; cbn [andb negb]; [discriminate|].
+    intros E; inversion E; subst. cbn [pre out_mode with_scratch]. split; [reflexivity|exact Hm].
+  - rewrite !andb_true_r.
+    destruct (interior && (e0 - s0 <? 2)%nat)%bool; [intros E; inversion E; subst; split; [reflexivity|exact Hm]|].
+    cbv zeta. cbn [orb out_mode with_scratch pre rest dead level]. rewrite Hm.
+    destruct (s0 <? dead b)%nat; [discriminate|].
+    destruct (negb interior).
+    + intros E; inversion E; subst. cbn [pre out_mode with_pr with_scratch]. split; [reflexivity|exact Hm].
+    + destruct (find_min_cluster (level b) (rest b) (s0 - dead b) (e0 - dead b) U32_MAX) as [c|]; cbn [bind]; [|discriminate].
+      destruct (infos_set_glyph_flags (level b) (rest b) (s0 - dead b) (e0 - dead b) c m) as [r|]; cbn [bind]; [|discriminate].
+      intros E; inversion E; subst.
+      rewrite out_mode_add_scratch.
+      destruct (add_scratch_frame (with_pr (with_scratch b (N.lor (scratch b) SCRATCH_HAS_GLYPH_FLAGS)) (pre b) (fst r) (dead b)) (snd r)) as [-> _].
+      cbn [pre out_mode with_pr with_scratch]. split; [reflexivity|exact Hm].
+Qed.
+
+(* delete_glyph in output mode at EVERY cluster level: the deleted glyph goes, every other glyph keeps what set_cluster and
+   or_mask (with the flag value of unsafe_to_break) leave alone *)
+Section DeleteAllLevels.
+  Variable Q : Type.
+  Variable q : info -> Q.
+  Hypothesis q_set_cluster : forall i c m, q (set_cluster i c m) = q i.
+  Hypothesis q_or_mask : forall x, q (or_mask BREAK_CONCAT x) = q x.
+
+  Theorem delete_glyph_q_all_levels b b' : out_mode b = true -> delete_glyph b = Ok b' ->
+    exists x t, rest b = x :: t /\ map q (pre b') = map q (pre b) /\ map q (rest b') = map q t.
+  Proof.
+    intros Hm H. destruct (N.eq_dec (level b) 2) as [L2|L2]; [|eapply delete_glyph_q; eassumption].
+    revert H. unfold delete_glyph.
+    destruct (rest b) as [|x t] eqn:Hr; [discriminate|].
+    assert (Hskip : forall b0, rest b0 = x :: t -> out_mode b0 = true -> forall b1, skip_glyph b0 = Ok b1 -> pre b1 = pre b0 /\ rest b1 = t).
+    { intros b0 H0 Hm0 b1. unfold skip_glyph. rewrite H0, Hm0. intro H. injection H as <-. cbn [pre rest with_pr]. split; reflexivity. }
+    set (next_same := match t with y :: _ => cluster y =? cluster x | [] => false end).
+    set (prev_same := match last_cluster (pre b) with Some pc => (0 <? length (pre b))%nat && (pc =? cluster x) | None => false end).
+    rewrite Hm. cbn [andb].
+    destruct (next_same || prev_same)%bool.
+    - intro H. destruct (Hskip b Hr Hm b' H) as [Hp Hrest]. exists x, t. rewrite Hp, Hrest. repeat split; reflexivity.
+    - destruct (0 <? length (pre b))%nat eqn:Hlen.
+      + destruct (last_cluster (pre b)) as [old|]; [|discriminate].
+        intro H.
+        set (pre' := if cluster x <? old then map_suffix_run (fun i => set_cluster i (cluster x) (mask x)) old (pre b) else pre b) in H.
+        destruct (Hskip (with_pr b pre' (x :: t) (dead b)) eq_refl Hm b' H) as [Hp Hrest].
+        exists x, t. rewrite Hp, Hrest. cbn [pre with_pr]. repeat split; try reflexivity.
+        unfold pre'. destruct (cluster x <? old); [|reflexivity].
+        apply map_p_map_suffix_run. intro i. apply q_set_cluster.
+      + destruct t as [|y t'].
+        * intro H. destruct (Hskip b Hr Hm b' H) as [Hp Hrest]. exists x, []. rewrite Hp, Hrest. repeat split; reflexivity.
+        * unfold merge_clusters_full.
+          destruct (dead b + 2 - dead b <? 2)%nat eqn:E; [apply Nat.ltb_lt in E; lia|].
+          apply N.eqb_eq in L2. rewrite L2. unfold unsafe_to_break.
+          destruct (set_glyph_flags b BREAK_CONCAT (Some (dead b)) (Some (dead b + 2)%nat) true false) as [b1|] eqn:Hf; cbn [bind]; [|discriminate].
+          intro H.
+          destruct (set_glyph_flags_outmode_pre _ _ _ _ _ _ Hm Hf) as [Hp1 Hm1].
+          pose proof (set_glyph_flags_mq Q q BREAK_CONCAT q_or_mask _ _ _ _ _ _ Hf) as Hall.
+          apply Nat.ltb_ge in Hlen. assert (Hnil : pre b = []) by (destruct (pre b); [reflexivity|cbn in Hlen; lia]).
+          rewrite Hp1, Hnil in Hall. cbn [app] in Hall. rewrite Hr in Hall. unfold mq in Hall.
+          destruct (rest b1) as [|x1 t1] eqn:Hr1; [discriminate Hall|].
+          cbn [map] in Hall. injection Hall as _ Ht.
+          revert H. unfold skip_glyph. rewrite Hr1, Hm1. intro H. injection H as <-. cbn [pre rest with_pr].
+          exists x, (y :: t'). repeat split; [rewrite Hp1; reflexivity|exact Ht].
+  Qed.
+End DeleteAllLevels.
+
+Lemma fbits_or_mask_break x : fbits (or_mask BREAK_CONCAT x) = fbits x.
+Proof. apply fbits_or_mask. reflexivity. Qed.
+
+Theorem delete_glyph_fbits_all_levels b b' : out_mode b = true -> delete_glyph b = Ok b' ->
+  exists x t, rest b = x :: t /\ map fbits (pre b') = map fbits (pre b) /\ map fbits (rest b') = map fbits t.
+Proof. apply delete_glyph_q_all_levels; [exact fbits_set_cluster|exact fbits_or_mask_break]. Qed.
+
+Theorem delete_glyph_gids_all_levels b b' : out_mode b = true -> delete_glyph b = Ok b' ->
+  exists x t, rest b = x :: t /\ map gid (pre b') = map gid (pre b) /\ map gid (rest b') = map gid t.
+Proof. apply delete_glyph_q_all_levels; [exact gid_set_cluster|intro x; reflexivity]. Qed.
